@@ -668,8 +668,10 @@ func detachOn[T any](bufferSize int, onUpstream, onDownstream bool) func(Observa
 			}
 
 			return func() {
+				// the hand-off goroutine is released even if releasing the source panics
+				defer stop()
+
 				subscriptions.Unsubscribe()
-				stop()
 			}
 		})
 	}
